@@ -234,6 +234,9 @@ def generate(rng, tier, cls):
     if rng.chance(0.1):
         spec['hostile_handler'] = True
 
+    if rng.chance(0.02):
+        spec['version'] = rng.choice([None, '2.0', '', '1', 'x'])
+
     faults = []
 
     if cls == 'write_error':
@@ -491,7 +494,10 @@ def execute(scn, L):
     ops = [op for op in spec.get('ops', ())
            if isinstance(op, dict) and op.get('op') in CALLS]
     spec = dict(spec, ops=ops)
-    spec.pop('version', None)
+    bad_version = 'version' in spec and spec['version'] != '1.0'
+
+    if not bad_version:
+        spec.pop('version', None)
     faults = [f for f in scn.get('faults', ()) if f.get('kind') in
               ('write_error',)]
     w, wa = run_writer(scn, L, spec, faults)
@@ -509,6 +515,18 @@ def execute(scn, L):
         if c['i'] < 0:
             if c['outcome'] == 'io-error':
                 break
+
+            if bad_version:
+                # a writer for a version of the format that does not exist
+                # (None included): refused, nothing written
+                if c['outcome'] == 'ok' or c['wrote']:
+                    out.violate('C09.accepted-but-must-reject',
+                                'ctor:version', {'version': spec['version'],
+                                                 'wrote': c['wrote']})
+
+                out.probe('constructor_refused_version')
+                out.case_key = pipe.scn_digest([main, spec['version']])
+                return out
 
             if c['outcome'] != 'ok':
                 out.violate('C09.ctor', c['outcome'], c.get('exc'))
